@@ -806,7 +806,17 @@ fn c20_case(r: &mut Rng) -> CliCase {
         }
     }
     if r.chance(1, 3) {
-        c.title = Some(r.pick(&["Test", "", "Ünï — ☃", "a b c", "x=1;y=2"]).to_string());
+        c.title = Some(match r.below(3) {
+            0 => r.pick(&["Test", "", "Ünï — ☃", "a b c", "x=1;y=2"]).to_string(),
+            1 => {
+                // long titles of multi-byte characters behind an ASCII prefix of every length
+                // (whatever shortens, wraps or echoes a title must respect character boundaries)
+                let unit = *r.pick(&["ä", "録", "😀", "é\u{0301}"]);
+                format!("{}{}", "a".repeat(r.below(9) as usize), unit.repeat(r.range(8, 60) as usize))
+            }
+            // (no NUL bytes: they cannot travel in a command-line argument)
+            _ => crate::gen::hist::titles(r).replace('\0', ""),
+        });
     }
     if r.chance(1, 3) {
         c.language = Some(crate::gen::hist::langs(r));
